@@ -483,13 +483,13 @@ class SortedSet(object):
         return self.issubset(other)
 
     def __lt__(self, other):
-        return len(other) > len(self._items) and self.issubset(other)
+        return self.issubset(other) and not self.issuperset(other)
 
     def __ge__(self, other):
         return self.issuperset(other)
 
     def __gt__(self, other):
-        return len(self._items) > len(other) and self.issuperset(other)
+        return self.issuperset(other) and not self.issubset(other)
 
     def __and__(self, other):
         return self._intersect(other)
@@ -566,7 +566,7 @@ class SortedSet(object):
         return len(self._intersect(other)) == len(self._items)
 
     def issuperset(self, other):
-        return len(self._intersect(other)) == len(other)
+        return all(item in self for item in other)
 
     def pop(self):
         if not self._items:
